@@ -9,7 +9,7 @@ COQ_TARGETS = ["Properties/C03.vo"]
 RULE = ("histories as in C01 run on an allocation of exactly initial-length + 10240 bytes placed flush against a PROT_NONE page "
         "(after it: overruns; before it: underruns; chosen per case) with canary-filled slack on the other side, each case in a "
         "forked child; initial sizes include 0 and values that bring the value to allowance-1 / allowance / allowance+1. "
-        "Observed: SIGSEGV yes/no, canaries intact, plus the usual per-step state; plus all 40 accessor-swap scenarios on two "
+        "Observed: SIGSEGV yes/no, canaries intact, plus the usual per-step state; plus all 60 accessor-swap scenarios on two "
         "buffers (which pointer x before/after a resize x what happens next: must be reported by the end of the borrow). "
         "non-trivial = at least one successful resize")
 
@@ -36,7 +36,7 @@ def gen_cases(rng, tier):
     # accessors swapped between two buffers: every (scenario, before/after a resize, follow-up) combination
     for sc in range(5):
         for when in (0, 1):
-            for then in (0, 1, 2, 3):
+            for then in (0, 1, 2, 3, 4, 5):
                 cases.append(("swap%d_%d_%d" % (sc, when, then), [100, sc, when, then]))
     return cases
 
@@ -60,7 +60,7 @@ def describe(c):
     if _is_swap(c):
         return {"swap_scenario": {0: "ListPtr a", 1: "UnsizedListPtr b", 2: "ListPtr d", 3: "element pointer of b (index_mut)",
                                   4: "UnsizedListPtr c"}.get(c[1]), "swap_after_resize": bool(c[2]),
-                "then": {0: "drop", 1: "resize sibling d", 2: "access element of b", 3: "resize the swapped container"}.get(c[3])}
+                "then": {0: "drop", 1: "resize sibling d", 2: "access element of b", 3: "resize the swapped container", 4: "remove the first element of the swapped container", 5: "remove element 1 of b"}.get(c[3])}
     return B.describe(c)
 
 
